@@ -552,6 +552,17 @@ def rule_showstate(ctx, R):
     SELECT = ("filter", "filter_map", "skip", "skip_while", "take", "take_while", "step_by", "rev", "dedup", "retain", "truncate", "pop", "remove", "nth", "last", "first")
     sel = sorted({n for n in names if n.rsplit("::", 1)[-1] in SELECT})
     R.check(not sel, "showstate:all_stacks", "every stack of the state is listed (no selecting adapter): %s" % sel, b.span)
+    ev_ = Events(b, fb, roles=roles)
+    cfg_ = normal_cfg(b)
+    conds = set()
+    for gb, blk in enumerate(b.blocks):
+        tt = blk["term"]
+        if tt["k"] == "switch" and not blk["cleanup"]:
+            for s_ in cfg_.succ[gb]:
+                lab = ev_.generic_edge(gb, tt, s_)
+                if lab and lab[:3] in ("BR[", "LT[", "EQ["):
+                    conds.add(lab.rsplit("=", 1)[0])
+    R.check(not conds, "showstate:unconditional", "no stack is left out of the listing on a condition (an empty stack is part of the state): %s" % sorted(c[:60] for c in conds), b.span)
     sorts = [(bi, t) for bi, t in b.calls() if callee_name(t["f"], fb).rsplit("::", 1)[-1] in ("sort_by", "sort_unstable_by", "sort_by_key", "sort_unstable_by_key", "sort", "sort_unstable")]
     if R.anchor(len(sorts) == 1, "showstate:sort", "the sort that fixes the order of the listing (the map iterates in arbitrary order)"):
         sb_, st_ = sorts[0]
